@@ -209,6 +209,113 @@ def o5(h, st):
     h.done()
 
 
+# ---------------------------------------------------------------------------------------------------------------------
+# P1  IonQ JSON round trip for circuits of ANY length and ANY placement (loop cuts of writer and reader, symbolic qubit indices)
+
+from tverif.engine import GhostList, Opaque, stub
+from tverif.interp import GhostIterable, GSeq
+
+CIRC = "tangelo/linq/circuit.py"
+
+
+class _AccLoop(GhostIterable):
+    """invariant protocol of a loop that only appends to one local list: that list is the loop-carried state (opaque prefix + what the generic iteration appends)"""
+
+    def __init__(self, h, var, elem):
+        self.h, self.var, self.elem = h, var, elem
+        self.managed = (var,)
+        self.iterations = 0
+
+    def element(self):
+        self.iterations += 1
+        return self.elem
+
+    def init(self, interp, env):
+        self.h.check(f"on loop entry: {self.var} is an empty list", env.lookup(self.var) == [])
+
+    def havoc(self, interp, env):
+        self.acc = GhostList(self.var)
+        env.assign(self.var, self.acc)
+
+    def step(self, interp, env, broke):
+        self.h.check("the loop does not stop early", not broke)
+        self.h.check(f"{self.var} not rebound (prefix kept)", env.lookup(self.var) is self.acc)
+
+
+def p1_structures(tier):
+    sts = []
+    for name in IONQ:
+        nt = 2 if name in TWO_TARGET else 1
+        for nc in ((1, 2) if name.startswith("C") else (0,)):
+            sts.append({"name": name, "nt": nt, "nc": nc})
+    return sts
+
+
+@contract("C17", "P1.ionq.round_trip.any_length", targets=[(TI, "translate_c_to_json_ionq"), (TI, "translate_c_from_json_ionq")], level="P", structures=p1_structures)
+def p1(h, st):
+    """for a circuit of ANY length and a generic gate of it (every kind the format supports, SYMBOLIC qubit indices - any placement -, any number of controls listed, every
+    parameter value): one generic iteration of the writer appends exactly one JSON entry to an arbitrary prefix and leaves the gate untouched; one generic iteration of the
+    reader on THAT entry appends exactly one gate that equals the source gate field by field (name up to CNOT = CX); the writer records the source's width under 'qubits' and
+    the reader builds Circuit(n_qubits=that width) + Circuit(gates) (constructor / + under contracts C11.P4 / P6). By induction on the two loops the round trip reproduces the
+    gate list and the width of every circuit"""
+    if not h.symbolic:
+        h.check("native: covered by O1", True)
+        h.done()
+        return
+    from tangelo.linq import Gate, Circuit
+    name, nt, nc = st["name"], st["nt"], st["nc"]
+    qs = [h.integer(f"q{i}") for i in range(nt + nc)]
+    for q in qs:
+        h.assume(q >= 0)
+    for a, b in itertools.combinations(qs, 2):
+        h.assume(a != b)
+    theta = h.real("theta") if name in PARAM else ""
+    g = Gate.__new__(Gate)
+    g.__dict__ = {"name": name, "target": list(qs[:nt]), "control": (list(qs[nt:]) if nc else None), "parameter": theta, "is_variational": False}
+    gb = snapshot(g.__dict__)
+    # writer
+    wl = _AccLoop(h, "json_gates", g)
+    w = h.integer("w")
+    src = Circuit.__new__(Circuit)
+    src.__dict__ = {"_gates": wl}
+    stub(h, CIRC, "Circuit.width", lambda a, k: w)
+    js = h.call(TI, "translate_c_to_json_ionq", src)
+    h.check("writer: loop body entered once for the generic gate", wl.iterations == 1)
+    h.check("writer: source gate unchanged", snapshot(g.__dict__) == gb)
+    h.check("writer: exactly one entry appended per gate", len(wl.acc.appended) == 1 and isinstance(wl.acc.appended[0], dict))
+    h.check("writer: the entries and the source's width are returned", isinstance(js, dict) and js.get("circuit") is wl.acc and js.get("qubits") is w)
+    entry = wl.acc.appended[0]
+    # reader on the entry the writer produced
+    rl = _AccLoop(h, "gates", entry)
+    eb = snapshot(entry)
+    log_init, log_add = [], []
+    stub(h, CIRC, "Circuit.__init__", lambda a, k: None, log=log_init)
+    stub(h, CIRC, "Circuit.__add__", lambda a, k: Opaque("sum", of=(a[0], a[1])), log=log_add)
+    out = h.call(TI, "translate_c_from_json_ionq", {"qubits": w, "circuit": rl})
+    h.check("reader: loop body entered once for the generic entry", rl.iterations == 1)
+    h.check("reader: JSON entry unchanged", snapshot(entry) == eb)
+    h.check("reader: exactly one gate appended per entry", len(rl.acc.appended) == 1 and isinstance(rl.acc.appended[0], Gate))
+    g2 = rl.acc.appended[0]
+    h.check("round trip: same name (CNOT == CX)", g2.name == name or {g2.name, name} == {"CNOT", "CX"})
+    h.check("round trip: same number of targets / controls", len(g2.target) == nt and ((g2.control is None) if nc == 0 else (g2.control is not None and len(g2.control) == nc)))
+    if len(g2.target) == nt and (nc == 0 or (g2.control is not None and len(g2.control) == nc)):
+        for i, q in enumerate(qs):
+            h.check_close(f"round trip: qubit {i} in place", g2.target[i] if i < nt else g2.control[i - nt], q)
+    if name in PARAM:
+        h.check_close("round trip: same parameter", g2.parameter, theta)
+    else:
+        h.check("round trip: no parameter", g2.parameter in ("", None))
+    # width: Circuit(n_qubits=w) + Circuit(gates)
+    h.check("reader: result is Circuit(n_qubits=recorded width) + Circuit(gates)", len(log_add) == 1 and len(log_init) == 2 and isinstance(out, Opaque))
+    if len(log_init) == 2 and len(log_add) == 1:
+        ia, ib = log_init
+        first = ia if ia[0][0] is log_add[0][0][0] else ib
+        second = ib if first is ia else ia
+        h.check("reader: left operand constructed with the recorded width and no gates", first[1].get("n_qubits", first[0][2] if len(first[0]) > 2 else None) is w and len(first[0]) == 1)
+        h.check("reader: right operand constructed from the accumulated gates", (second[0][1] if len(second[0]) > 1 else second[1].get("gates")) is rl.acc and second[0][0] is log_add[0][0][1])
+    h.done()
+
+
 PROPERTY = {
     "level": "other",
     "explanation": "IonQ JSON: round trip proved per gate kind for every parameter value (symbolic parameter, dictionaries are within the verifier's subset). ProjectQ command "
